@@ -397,6 +397,10 @@ func sqlChecks(t *node, text string, withRows bool) {
 	}
 	psql, params, perr := lucene.ToParameterizedPostgres(text)
 	rtAssert("inline-ok-implies-param-ok", err != nil || perr == nil) // C04
+	if rtParam("SEQ") == 1 { // the two renderers agree in whatever order they are called
+		sqlAgain, errAgain := lucene.ToPostgres(text)
+		rtAssert("inline-same-after-param", (err == nil) == (errAgain == nil) && sql == sqlAgain)
+	}
 	if err != nil {
 		return
 	}
@@ -715,6 +719,15 @@ func H_ValueConfined() {
 			rtAssume(false)
 			return
 		}
+	} else if rtParam("MODE") == 2 {
+		// a value list whose second item is a quoted phrase of arbitrary bytes
+		text = append(text, "(v OR \""...)
+		for u := 0; u < units; u++ {
+			b := rtByte("q")
+			rtAssume(b != '"')
+			text = append(text, b)
+		}
+		text = append(text, '"', ')')
 	} else {
 		text = append(text, '/')
 		for u := 0; u < units; u++ {
@@ -741,6 +754,12 @@ func H_ValueConfined() {
 	}
 	rtObserve("sql", sql)
 	ast, _, ok := pgParse(sql)
+	if rtParam("MODE") == 2 {
+		// the list renders as IN over string constants, or as one equality; either way one confined expression
+		rtAssert("value-confined", ok && (ast.kind == qIn || ast.kind == qCmp) && ast.a.kind == qCol && ast.a.text == "f")
+		rtReach("end")
+		return
+	}
 	good := ok && (ast.kind == qSimilar || ast.kind == qRegex || ast.kind == qCmp) && ast.a.kind == qCol && ast.b.kind == qStr
 	if good {
 		rtObserve("strvals", ast.b.text)
